@@ -318,7 +318,6 @@ func TestC13(t *testing.T) {
 	})
 }
 
-
 // ---- C13, constraint interfaces: unions and approximation terms ------------------------------------
 
 type c13Term struct {
